@@ -149,6 +149,14 @@ theorem gp_loads_defined :
         (loadStore rows .load m r t).isSome)) = true := by
   decide +kernel
 
+/-- **Where a move must exist, one is selected**: integers and booleans with
+general-purpose registers of sufficient (load) / equal (store) width, floats
+with XMM registers. -/
+theorem must_move_defined :
+    (dirs.all fun d => types.all fun t => regClasses.all fun r => memReps.all fun m =>
+      (!(mustMove F d t r) || (loadStore rows d m r t).isSome)) = true := by
+  decide +kernel
+
 /-- non-vacuity: a sign-extending load is selected and judged -/
 example : loadStore rows .load mFP ⟨kindGP, 4, 257, 7, nV⟩ ⟨0x696e743804467285d3, 2, 1⟩ = some oMOVBLSX := by
   decide +kernel
